@@ -1,8 +1,11 @@
 package props
 
 import (
+	"bufio"
+	"bytes"
 	"fmt"
 	"image"
+	"io"
 	"math"
 	"runtime"
 	"runtime/debug"
@@ -13,7 +16,11 @@ import (
 	"github.com/evanoberholster/imagemeta/exif2/ifds"
 	"github.com/evanoberholster/imagemeta/exif2/tag"
 	"github.com/evanoberholster/imagemeta/imagehash"
+	"github.com/evanoberholster/imagemeta/imagetype"
+	"github.com/evanoberholster/imagemeta/isobmff"
+	"github.com/evanoberholster/imagemeta/jpeg"
 	"github.com/evanoberholster/imagemeta/meta/utils"
+	"github.com/evanoberholster/imagemeta/tiff"
 	"github.com/evanoberholster/imagemeta/xmp"
 
 	"verif/harness/internal/core"
@@ -113,7 +120,7 @@ type C04 struct {
 func (e *C04) ID() string    { return "C04" }
 func (e *C04) Level() string { return "exploration" }
 func (e *C04) Rule() string {
-	return "each case takes an input x (valid, truncated or malformed file through its natural entry points, or an image of right or wrong size through the four hash functions) and compares the canonical observation of f(x) on pristine state (hooks reset every pool and the zone cache) with f(x) (a) after a real history of 1-8 earlier calls in the same process (valid files, malformed files, purpose-built dirtying files that leave many pending tags, 0xFF/digit/zone-like scratch bytes and unusual zone strings, hash calls on other images; GOMAXPROCS=1 and GC off so that sync.Pool hands back the same objects) and (b) under 3 poison specs (pooled scratch bytes / stale tags of valid type with arbitrary id, count, offset / bufio buffers pre-filled / pixel pools filled with NaN, 1e30, another image). A divergence found under poison is replayed as a real history before it is reported as such (both are violations; the report says which). Immutability: a returned Exif, XMP and preview are re-observed after later calls. Non-trivial: x reaches the Exif reader, the XMP parser or a hash kernel; distinct = (entry, outcome class, history class)."
+	return "each case takes an input x (valid, truncated or malformed file through its natural entry points, or an image of right or wrong size through the four hash functions) and compares the canonical observation of f(x) on pristine state (hooks reset every pool and the zone cache) with f(x) (a) after a real history of 1-8 earlier calls in the same process (valid files, malformed files, purpose-built dirtying files that leave many pending tags, 0xFF/digit/zone-like scratch bytes and unusual zone strings, hash calls on other images, scanner calls that were handed a caller-owned bufio.Reader of 4097..65536 bytes; GOMAXPROCS=1 and GC off so that sync.Pool hands back the same objects) and (b) under 3 poison specs (pooled scratch bytes / stale tags of valid type with arbitrary id, count, offset / bufio buffers pre-filled / pixel pools filled with NaN, 1e30, another image). A divergence found under poison is replayed as a real history before it is reported as such (both are violations; the report says which). First call: every 150th case runs one operation (gray conversion of YCbCr 4:4:4 / 4:2:0 / RGBA images by both converters, the hashes, each DCT entry point, blurhash, decode, parse, XMP, tag names, sniffing) as the very first library call of a fresh process, three times, and compares the three observations with each other and with the same call in the long-lived worker (bit-exact digests of pixel and coefficient buffers). Ownership: after a scanner call on a caller-owned bufio.Reader and later calls on other streams, the caller's reader must still yield exactly the rest of its own stream. Immutability: a returned Exif, XMP and preview are re-observed after later calls. Non-trivial: x reaches the Exif reader, the XMP parser or a hash kernel; distinct = (entry, outcome class, history class)."
 }
 func (e *C04) Assumptions() []string {
 	return []string{"the verif hooks replace the pool variables at quiescent points; poison contents are reachable: any byte pattern can be left in the scratch buffer by a file holding those bytes, any tag of valid type by a directory listing it; len/pos are not poisoned (a dropped reset is caught by the real histories)",
@@ -145,6 +152,11 @@ func (e *C04) Run(c *core.Ctx, idx int) {
 	// runs between cases
 	defer runtime.GC()
 	r := c.Rng(idx, 4)
+	if idx%150 == 77 {
+		// the empty history: the operation as the first library call of a fresh process
+		firstCallProbe(c, ProbeKinds[(idx/150)%len(ProbeKinds)], c.Seed*1000003+uint64(idx))
+		return
+	}
 	// ----- the call under test
 	type call struct {
 		name string
@@ -169,7 +181,7 @@ func (e *C04) Run(c *core.Ctx, idx int) {
 		n := hr.Range(1, 8)
 		hd := ""
 		for k := 0; k < n; k++ {
-			switch hr.Intn(6) {
+			switch hr.Intn(7) {
 			case 0, 1:
 				b := dirtyingFile(hr)
 				_, _, _ = core.Guard(func() { _, _ = imagemeta.Decode(mon.NewRS(b)); _, _ = exif2.Parse(mon.NewRS(b)) })
@@ -191,6 +203,25 @@ func (e *C04) Run(c *core.Ctx, idx int) {
 				img, _ := hashImage(hr)
 				_, _, _ = core.Guard(func() { _ = hashObs(img) })
 				hd += "hash;"
+			case 5:
+				// calls that were handed the caller's own buffered reader (of a size unlike the pooled ones)
+				f := p.files[hr.Intn(len(p.files))]
+				br := bufio.NewReaderSize(mon.NewRS(f.Data), hr.Pick(4097, 8192, 65536))
+				_, _, _ = core.Guard(func() {
+					switch hr.Intn(4) {
+					case 0:
+						_ = jpeg.ScanJPEG(br, nil, nil)
+					case 1:
+						_, _ = tiff.ScanTiffHeader(br, imagetype.ImageUnknown)
+					case 2:
+						_, _ = xmp.ParseXmp(br)
+					default:
+						rd := isobmff.NewReader(br)
+						_ = rd.ReadFTYP()
+						rd.Close()
+					}
+				})
+				hd += "ownreader;"
 			default:
 				x := gen.GenXMPRec(hr, 60, 200).Serialise(hr, gen.RandXMPStyle(hr, false), 0)
 				_, _, _ = core.Guard(func() { _, _ = xmp.ParseXmp(mon.NewRS(x)) })
@@ -245,6 +276,76 @@ func (e *C04) Run(c *core.Ctx, idx int) {
 			} else {
 				c.Rec.Violation("poison:"+cl.name, fmt.Sprintf("%s returns a different result under %s than on pristine state (%s): %s", cl.name, how, desc, firstDiff(ref, got)),
 					map[string]any{"entry": cl.name, "input": desc, "poison": pd, "pristine": clipStr(ref, 1500), "poisoned": clipStr(got, 1500)})
+			}
+		}
+	}
+	// ----- a caller's own buffered reader stays the caller's: after a call that was handed a
+	// *bufio.Reader, later calls on other streams (which take readers from the library's pools)
+	// must not touch it; what it still holds is the rest of its own stream
+	if idx%5 != 4 && idx%3 == 0 {
+		data, _, _ := relInput(c, p, idx)
+		other := p.files[r.Intn(len(p.files))].Data
+		size := r.Pick(4096, 4097, 8192, 65536)
+		type own struct {
+			name string
+			run  func(br *bufio.Reader)
+		}
+		owners := []own{
+			{"jpeg.ScanJPEG", func(br *bufio.Reader) { _ = jpeg.ScanJPEG(br, nil, nil) }},
+			{"tiff.ScanTiffHeader", func(br *bufio.Reader) { _, _ = tiff.ScanTiffHeader(br, imagetype.ImageUnknown) }},
+			{"xmp.ParseXmp", func(br *bufio.Reader) { _, _ = xmp.ParseXmp(br) }},
+			{"imagetype.ScanBuf", func(br *bufio.Reader) { _, _ = imagetype.ScanBuf(br) }},
+			{"isobmff.Reader", func(br *bufio.Reader) {
+				rd := isobmff.NewReader(br)
+				if rd.ReadFTYP() == nil {
+					_ = rd.ReadMetadata()
+				}
+				rd.Close()
+			}},
+		}
+		ow := owners[r.Intn(len(owners))]
+		resetAll()
+		rsA := mon.NewRS(data)
+		brA := bufio.NewReaderSize(rsA, size)
+		c.SetPhase("ownership " + ow.name + " " + desc)
+		if pk, _, _ := core.Guard(func() { ow.run(brA) }); !pk {
+			posA := int(rsA.Pos) - brA.Buffered()
+			// later calls on plain readers of another stream, through every scanner that pools
+			// readers; each call is made once more from inside a Read of the first (re-entrancy
+			// through the caller's reader is legal), so that two readers are taken from each pool
+			// before one is given back: a pool hands out its most recent addition second
+			var later func(depth int)
+			later = func(depth int) {
+				mk := func() *mon.RS {
+					rs := mon.NewRS(other)
+					if depth < 1 {
+						done := false
+						rs.Yield = func() {
+							if !done {
+								done = true
+								later(depth + 1)
+							}
+						}
+					}
+					return rs
+				}
+				_ = jpeg.ScanJPEG(mk(), nil, nil)
+				_, _ = tiff.ScanTiffHeader(mk(), imagetype.ImageUnknown)
+				_, _ = exif2.Parse(mk())
+				_, _ = xmp.ParseXmp(mk())
+				_, _ = imagetype.Scan(mk())
+				_, _ = imagemeta.Decode(mk())
+				rd := isobmff.NewReader(mk())
+				_ = rd.ReadFTYP()
+				rd.Close()
+			}
+			_, _, _ = core.Guard(func() { later(0) })
+			rest, _ := io.ReadAll(brA)
+			c.Rec.Eval(1)
+			c.Rec.Count("ownership_checked:"+ow.name, 1)
+			if posA < 0 || posA > len(data) || !bytes.Equal(rest, data[posA:]) {
+				c.Rec.Violation("ownership:"+ow.name, fmt.Sprintf("after %s on a caller-owned bufio.Reader (size %d) and later calls on other streams, the caller's reader yields %d bytes that are not the %d remaining bytes of its own stream (%s)", ow.name, size, len(rest), len(data)-posA, desc),
+					map[string]any{"entry": ow.name, "input": desc, "reader_size": size, "position_after_call": posA})
 			}
 		}
 	}
